@@ -497,3 +497,108 @@ impl super::branch_updater::HandleNewBranch for NewBranchHandler {
         Ok(())
     }
 }
+
+/// Verification hook (compiled only with `--cfg nomt_verif`): the real branch stage ([`run`]: `prepare_workers`,
+/// `run_worker` on the thread pool, `apply_bbn_changes`, `filter_branch_changeset`, `apply_changes_to_index`) on
+/// an index built from caller-supplied nodes and a scratch bbn store file. Nothing here is used by the store itself.
+#[cfg(nomt_verif)]
+pub mod verif {
+    use super::super::branch_updater::verif::NodeHandle;
+    use super::{run, Index, Key, PageNumber, PagePool, ThreadPool};
+    use crate::beatree::allocator::Store;
+    use crate::io::{self, IoPool, PAGE_SIZE};
+    use std::{path::Path, sync::Arc};
+
+    /// The shared page pool, I/O pool and thread pool of the simulations.
+    pub struct StageEnv {
+        page_pool: PagePool,
+        io_pool: IoPool,
+        thread_pool: ThreadPool,
+    }
+
+    impl StageEnv {
+        pub fn new(io_workers: usize, threads: usize) -> Self {
+            let page_pool = PagePool::new();
+            let io_pool = io::start_io_pool(io_workers, page_pool.clone());
+            StageEnv {
+                page_pool,
+                io_pool,
+                thread_pool: ThreadPool::with_name("verif-branch-stage".into(), threads),
+            }
+        }
+    }
+
+    /// The index after the stage (separator → node, ascending), `BranchStageOutput::freed_pages` in the order the
+    /// stage reports them, and `submitted_io`.
+    pub struct StageOut {
+        pub index: Vec<(Key, NodeHandle)>,
+        pub freed: Vec<u32>,
+        pub submitted_io: usize,
+    }
+
+    fn index_entries(index: &Index) -> Vec<(Key, NodeHandle)> {
+        let mut out = Vec::new();
+        let mut cur = match index.lookup([0u8; 32]) {
+            Some((k, _)) => Some(k),
+            None => index.next_key([0u8; 32]),
+        };
+        while let Some(k) = cur {
+            if let Some((sep, node)) = index.lookup(k) {
+                out.push((sep, NodeHandle(node)));
+            }
+            cur = index.next_key(k);
+        }
+        out
+    }
+
+    /// `branch_stage::run` with `num_workers` workers on the index `{separator ↦ node}`; the bbn store is a fresh
+    /// file at `path` whose allocation frontier is `bump` and whose free list is empty (new nodes get the page
+    /// numbers `bump`, `bump + 1`, …). Waits for the page writes the stage submitted.
+    pub fn run_stage(
+        env: &StageEnv,
+        path: &Path,
+        nodes: &[(Key, NodeHandle)],
+        changeset: &[(Key, Option<u32>)],
+        num_workers: usize,
+        bump: u32,
+    ) -> std::io::Result<StageOut> {
+        let file = std::fs::OpenOptions::new()
+            .read(true)
+            .write(true)
+            .create(true)
+            .truncate(true)
+            .open(path)?;
+        file.set_len((bump as u64 + 64) * PAGE_SIZE as u64)?;
+        let file = Arc::new(file);
+        let store = Store::verif_with_free_list(file, PageNumber(bump), vec![])?;
+        let (bbn_writer, _finisher) = store.start_sync();
+
+        let mut index = Index::default();
+        for (sep, node) in nodes {
+            index.insert(*sep, node.0.clone());
+        }
+        let io_handle = env.io_pool.make_handle();
+        let changeset: Vec<(Key, Option<PageNumber>)> = changeset
+            .iter()
+            .map(|(k, pn)| (*k, pn.map(PageNumber)))
+            .collect();
+        let output = run(
+            &mut index,
+            bbn_writer,
+            env.page_pool.clone(),
+            io_handle.clone(),
+            changeset,
+            env.thread_pool.clone(),
+            num_workers,
+        )?;
+        for _ in 0..output.submitted_io {
+            let complete = io_handle.recv().expect("I/O pool down");
+            complete.result?;
+        }
+        Ok(StageOut {
+            index: index_entries(&index),
+            freed: output.freed_pages.iter().map(|pn| pn.0).collect(),
+            submitted_io: output.submitted_io,
+        })
+    }
+}
